@@ -703,7 +703,7 @@ def n3(ctx, rep):
     ok = any(c.get('f') == cvname for c in ra['calls'])
     if cv.get('provider'):
         # the variants' types come out of the provider and every one of them is handed to check_type in reconcile_aliases
-        ok = any(c.get('f') == 'check_type' and any(str(vt.unvar(x.get('args', [{}])[0] if x.get('args') else {}).get('text', '')).replace(' ', '').split('::')[-1] == cvname or any(y.get('k') == 'call' and str(y.get('f')).split('::')[-1] == cvname for y in vt.walk(x)) for a in c.get('args', []) for x in vt.walk(a) if x.get('k') == 'call' and x.get('f') in ('flat_map', 'map')) for c in ra['calls'])
+        ok = any(c.get('f') == 'check_type' and any(str(vt.unvar(x.get('args', [{}])[0] if x.get('args') else {}).get('text', '')).replace(' ', '').split('::')[-1] == cvname or any((y.get('k') == 'call' and str(y.get('f')).split('::')[-1] == cvname) or (y.get('k') == 'var' and y.get('inlined') == cvname) for y in vt.walk(x)) for a in c.get('args', []) for x in vt.walk(a) if x.get('k') == 'call' and x.get('f') in ('flat_map', 'map')) for c in ra['calls'])
     rep.check(ok, 'N3', 'reconcile_aliases:enum variants', 'check_variant called', 'reconcile_aliases does not visit enum variants', {'file': ra['file'], 'line': ra['line']})
     if cv.get('provider'):
         from .. import coverage
